@@ -460,6 +460,12 @@ class C14(Check):
         rng = ctx.sub_rng('c14')
         seqs = self.corpus(ctx) + self.fixed_histories() + \
             [self.gen_history(rng, clean=(i % 3 == 0)) for i in range(ctx.n(70, 1000))]
+        if ctx.model_ok:
+            # hypotheses of theorem C14.init_inv evaluated on the generated tables (names differ, everything expands)
+            rep = ctx.driver(['initcheck'])[0]
+            ctx.notes['init_inv_hypotheses_hold_for_generated_tables'] = rep
+            if rep != 'OK':
+                ctx.disagree('hypotheses of init_inv on the built-in tables', {'op': 'initcheck'}, 'Profiles() works', rep)
         self.correspond(ctx, impl, seqs)
         self.expand_correspond(ctx, impl, rng)
         self.oracle(ctx, impl, seqs, rng)
